@@ -793,8 +793,13 @@ def c04_packet(dec, p, e, pads, tables):
             names = {1: "System", 2: "Interface", 3: "LineCard", 4: "NetFlowCache", 5: "Template"}
             exp_sc = [{names[n]: list(v)} for n, v in x[3]]
             exp_op = [{"field_type": tables.v9[n][0], "field_value": list(v)} for n, v in x[4]]
+            # whatever follows the first record (further records: the documented deviation; then the
+            # padding sent) must all be there as padding: nothing of the flowset may vanish
+            rest = b"".join(bytes(v) for rsc, rop in x[6][1:] for _n, v in list(rsc) + list(rop)) + bytes(x[5])
             if plain(sc) != exp_sc or plain(op) != exp_op:
                 f.append((None, "options data flowset %d: sent scope %r options %r, reported %r %r" % (i, exp_sc, exp_op, plain(sc), plain(op))))
+            elif pads is not None and pads[i] != rest.hex():
+                f.append((None, "options data flowset %d: the %d bytes after the first record are not all reported as padding (reported %s)" % (i, len(rest), pads[i])))
             elif len(x[6]) > 1:
                 # the first record is right; the result type has room for one record only
                 f.append(("K_C04_options_multi_record", "options data flowset %d (template %d): %d records sent, only the first is reported (the others are left in the padding)" % (i, x[1], len(x[6]))))
@@ -962,14 +967,41 @@ def value_classes(prefix, v):
     return out
 
 
+def _set_offsets(pkt, start):
+    """wire offsets of the sets / flowsets of one packet, walking their headers"""
+    out = []
+    q = start
+    while q + 4 <= len(pkt):
+        out.append(q)
+        q += max(int.from_bytes(pkt[q + 2 : q + 4], "big"), 4)
+    return out
+
+
+def _first_diff(a, b):
+    """first offset at which two hex strings differ as bytes (length of the shorter if one is a prefix)"""
+    n = min(len(a), len(b)) // 2
+    for i in range(n):
+        if a[2 * i : 2 * i + 2] != b[2 * i : 2 * i + 2]:
+            return i
+    return n
+
+
 def c09(case, obs, crash):
     f = []
     ops = [o for o in parse_ops(case) if o[0] == "B"]
+    prevS = {}
     for k, (o, op) in enumerate(zip(obs, ops)):
         R = get(o, "R")
         X = get(o, "X")
+        Sp = prevS.get(op[1])
+        if get(o, "S") is not None:
+            prevS[op[1]] = get(o, "S")
         if not isinstance(R, list) or isinstance(R, canon.Pairs) or X is None:
             continue
+        # the templates in force, flowset by flowset: what the parser held when the call began,
+        # updated by the template flowsets this call reports
+        live = {ent[0]: [(get(q, "field_type"), get(q, "field_length")) for q in (get(ent[1], "fields") or [])]
+                for ent in (get(Sp, "v9_t") or [])} if Sp is not None else {}
         x = op[2]
         pos = 0
         for j, e in enumerate(R):
@@ -977,15 +1009,63 @@ def c09(case, obs, crash):
                 break
             n = wire_len(e)
             if elem_kind(e) == "V9":
+                live_at = {}
+                for si, fs in enumerate(get(elem_body(e), "flowsets")):
+                    b = get(fs, "body")
+                    if b[0][0] == "Template":
+                        for t in get(b[0][1], "templates"):
+                            live[get(t, "template_id")] = [(get(q, "field_type"), get(q, "field_length")) for q in (get(t, "fields") or [])]
+                    elif b[0][0] == "OptionsTemplate":
+                        for t in get(b[0][1], "templates"):
+                            live.pop(get(t, "template_id"), None)
+                    elif b[0][0] == "Data":
+                        live_at[si] = live.get(get(get(fs, "header"), "flowset_id"))
                 want = x[pos : pos + n].hex()
                 if X[j] != want:
                     classes = set()
-                    for fs in get(elem_body(e), "flowsets"):
+                    offs = _set_offsets(x[pos : pos + n], 20)
+                    excused_from = None          # a lossy value changes nothing before the flowset it is in
+                    for si, fs in enumerate(get(elem_body(e), "flowsets")):
                         b = get(fs, "body")
                         if b[0][0] == "Data":
+                            here = set()
                             for rec in get(b[0][1], "fields"):
                                 for _key, tv in rec:
-                                    classes |= value_classes("K_C09", tv[1])
+                                    here |= value_classes("K_C09", tv[1])
+                            if here and excused_from is None and si < len(offs):
+                                excused_from = offs[si] + 4
+                            classes |= here
+                    # ... and it changes the LENGTH by exactly what the substitutions add: a MAC address goes
+                    # out as 17 bytes, a duration as 4, a string as its (repaired) UTF-8
+                    delta = 0
+                    known = Sp is not None or k == 0
+                    for si, fs in enumerate(get(elem_body(e), "flowsets")):
+                        b = get(fs, "body")
+                        if b[0][0] != "Data" or not known:
+                            continue
+                        tl = live_at.get(si)
+                        for rec in get(b[0][1], "fields"):
+                            if tl is None or [tv[0] for _key, tv in rec] != [nm for nm, _l in tl]:
+                                known = False      # not the definition this flowset was decoded with
+                                break
+                            for (_key, tv), (_nm, fl) in zip(rec, tl):
+                                kind_ = tv[1][0][0]
+                                if kind_ == "MacAddr":
+                                    delta += 17 - 6
+                                elif kind_ == "Duration":
+                                    delta += 4 - fl
+                                elif kind_ == "String":
+                                    delta += len(tv[1][0][1].encode("utf-8")) - fl
+                    if classes and known and X[j] not in ("ERR", "PANIC") and len(X[j]) // 2 != n + delta:
+                        f.append((None, "op %d: V9 element %d: to_be_bytes gives %d bytes; the %d received with the documented substitutions (MAC as text, durations as 4 bytes, repaired strings) make %d"
+                                  % (k, j, len(X[j]) // 2, n, n + delta)))
+                        pos += n
+                        continue
+                    if classes and X[j] not in ("ERR", "PANIC") and excused_from is not None and _first_diff(X[j], want) < excused_from:
+                        f.append((None, "op %d: V9 element %d: to_be_bytes differs at offset %d, before the first flowset with a lossy value kind (offset %d)"
+                                  % (k, j, _first_diff(X[j], want), excused_from - 4)))
+                        pos += n
+                        continue
                     what = "to_be_bytes failed" if X[j] == "ERR" else ("to_be_bytes PANICKED" if X[j] == "PANIC" else "to_be_bytes differs from the %d bytes the packet occupied" % n)
                     fails = "#export-fails" in classes
                     classes.discard("#export-fails")
@@ -1024,8 +1104,11 @@ def c10(case, obs, crash, tables):
                     classes = set()
                     sets = get(elem_body(e), "flowsets")
                     stored = 16 + sum(max(get(get(fs, "header"), "length"), 4) for fs in sets)
+                    offs = _set_offsets(x[pos : pos + n], 16)
+                    excused_from = None          # a documented deviation changes nothing before the set it is in
                     if stored < n:
                         classes.add("K_C10_sets_dropped")
+                        excused_from = stored
                     tmpl = {}
                     for Sx in (prevS.get(op[1]), S):
                         if Sx is not None:
@@ -1038,8 +1121,9 @@ def c10(case, obs, crash, tables):
                                 b2 = get(fs2, "body")
                                 if b2[0][0] in ("Template", "OptionsTemplate"):
                                     tmpl.setdefault(get(b2[0][1], "template_id"), []).append(b2[0][1])
-                    for fs in sets:
+                    for si, fs in enumerate(sets):
                         b = get(fs, "body")
+                        before = set(classes)
                         if b[0][0] in ("Data", "OptionsData"):
                             for m in get(b[0][1], "fields"):
                                 _key, tv = m[0]
@@ -1059,6 +1143,13 @@ def c10(case, obs, crash, tables):
                             for t in tmpl.get(get(get(fs, "header"), "header_id"), []):
                                 if any(get(q, "field_length") == 65535 for q in get(t, "fields")):
                                     classes.add("K_C10_varlen_prefix")
+                        if classes - before and si < len(offs) and (excused_from is None or offs[si] + 4 < excused_from):
+                            excused_from = offs[si] + 4
+                    if classes and X[j] not in ("ERR", "PANIC") and excused_from is not None and _first_diff(X[j], want) < excused_from:
+                        f.append((None, "op %d: IPFIX element %d: to_be_bytes differs at offset %d, before the first set a documented deviation applies to (offset %d)"
+                                  % (k, j, _first_diff(X[j], want), excused_from)))
+                        pos += n
+                        continue
                     what = "to_be_bytes failed" if X[j] == "ERR" else ("to_be_bytes PANICKED" if X[j] == "PANIC" else "to_be_bytes differs from the %d bytes the message occupied" % n)
                     fails = "#export-fails" in classes
                     classes.discard("#export-fails")
@@ -1154,6 +1245,10 @@ def flow_diff(exp, got, widths, cls_prefix, proto_from):
     for key, want in exp.items():
         have = g.get(key)
         if want == "ANY":
+            # a value the view's type cannot express (class recorded by the caller): the documented
+            # deviation is that the field is ABSENT, never that a number is made up for it
+            if have is not None:
+                out.append((None, "%s = %r although the record's value cannot be expressed in the common field (the documented deviation is absence)" % (key, have)))
             continue
         if want == "ABSENT?":
             if have is not None:
